@@ -44,7 +44,7 @@ def bodies(t, rng, quick):
             texts = [x + b'\x00' for x in texts]
         out += [('text-%d' % n, x) for n, x in enumerate(texts)]
     elif t == 29:
-        out += [('reason-%d' % n, bytes([c]) + x) for n, (c, x) in enumerate([(0, b''), (1, b'superseded'), (32, 'üñí'.encode('utf-8')), (3, b'\xe9\xe8'), (100, b'private')])]
+        out += [('reason-%d' % n, bytes([c]) + x) for n, (c, x) in enumerate([(0, b''), (1, b'superseded'), (32, 'üñí'.encode('utf-8')), (3, b'\xe9\xe8'), (100, b'private'), (110, b''), (7, b'unassigned code'), (255, b'')])]
     elif t in FLAGS:
         vals = list(range(256)) if not quick else [0, 1, 2, 3, 4, 8, 16, 32, 64, 128, 0x2f, 0x40, 0x7f, 0x80, 0xff]
         out += [('flag-%02x' % v, bytes([v])) for v in vals]
@@ -242,7 +242,8 @@ def record_foreign(ctx, blobs, pub, pkt, hin, doc, t, critical, cname, form, kep
     s = sigs.parse_sig(pkt)
     if s is None:
         # refusing to read a packet is outside the property, except for the well-formed hashed subpackets it names explicitly or by kind
-        e.update({'accepted': cname.startswith('prefs-unknown-id'), 'result': 'raised'})
+        # ... a revocation reason code is an octet like a preference id: private-use (100-110) and unassigned codes are legal (5.2.3.23)
+        e.update({'accepted': cname.startswith('prefs-unknown-id') or (t == 29 and cname.startswith('reason-')), 'result': 'raised'})
         return e
     e['accepted'] = True
     try:
